@@ -25,11 +25,11 @@ var lockAssume = []string{
 }
 
 var lockFuncs = []string{"ensureFileExists", "withLock"}
-var sectionFuncs = []string{"RunClaimOldestReady$1", "applySetUpdates$1", "writeLinkEvent$1", "createTaskWithDir$1", "writeResultEvent$1", "runPrune$1", "RunCompact$1"}
+var sectionFuncs = []string{"RunClaimOldestReady$1", "applySetUpdates$1", "writeLinkEvent$1", "createTaskWithDir$1", "writeResultEvent$1", "runPrune$1", "RunCompact$1", "RunPlan$1"}
 var outerFuncs = []string{"writeLinkEvent", "createTaskWithDir", "createTask", "writeResultEvent", "applySetUpdates", "runPrune", "RunPrunePlan", "RunPruneApply", "appendEventsAtomically"}
-var commandFuncs = []string{"RunClaimOldestReady", "RunClaim", "RunSet", "RunNewTask", "RunNewEpic", "RunSequence", "RunPrune", "RunCompact", "RunShow", "RunInit"}
+var commandFuncs = []string{"RunClaimOldestReady", "RunClaim", "RunSet", "RunNewTask", "RunNewEpic", "RunSequence", "RunPrune", "RunCompact", "RunShow", "RunInit", "RunPlan"}
 var helperFuncs = []string{"newEvent", "newShortID", "buildSetEvents", "validateTransition", "validateClaimInvariant", "buildPruneItems", "buildTombstoneEvents", "buildPrunePlan", "selectPruneTargets",
-	"buildSequenceEdges", "isReachable", "hasCycle", "(*ValidationError).GoError", "(*TaskInput).validate", "(*TaskInput).ToKeyValueMap", "buildUpdatedFields", "claimedAtForTask"}
+	"buildSequenceEdges", "isReachable", "hasCycle", "(*ValidationError).GoError", "(*TaskInput).validate", "(*TaskInput).ToKeyValueMap", "buildUpdatedFields", "claimedAtForTask", "buildFlagUpdates", "(*PlanInput).Validate"}
 
 // clause labels that belong to the transaction/atomicity properties (C02, C10) and to the output property (C16)
 var txLabels = []string{"[fail-unchanged]", "[one-commit]", "[committed]", "[version-tracks-commits]", "[dry-run-pure]", "[read-pure]"}
@@ -46,7 +46,8 @@ var propSpecs = map[string]*PropSpec{
 		ID: "C02", Exclude: jsonLabels, Title: "Concurrent commands are serializable; acknowledged writes are never lost",
 		Funcs:     cat(lockFuncs, sectionFuncs, outerFuncs, commandFuncs, helperFuncs, readyFuncs, replayFuncs),
 		Technique: "contract-based deductive verification of the lock protocol as ghost state: every write primitive requires LOCK_EX held and the log read in the same lock epoch (obligations at every call site), withLock never blocks, every command is at most one commit (recorded findings where it is not)",
-		Assume:    append([]string{"RunPlan and its section are not yet under contract (plan is claimed by no property yet); init's file creation outside the lock is tracked by the ghost counter fsWrites only"}, lockAssume...),
+		Census:    "writers",
+		Assume:    append([]string{"init's file creation outside the lock is tracked by the ghost counter fsWrites only"}, lockAssume...),
 	},
 	"C06": {
 		ID: "C06", Exclude: cat(txLabels, jsonLabels), Title: "State machine and claim invariants hold on every path",
@@ -84,7 +85,7 @@ var propSpecs = map[string]*PropSpec{
 		Funcs: cat([]string{"RunList", "RunShow", "RunWhere", "RunPrune", "RunPrunePlan", "runPrune", "runPrune$1", "sortByCreatedAt$1", "sortByCreatedAt", "buildTaskListItems",
 			"computeStatsForTasks", "collectNonEpicTasks", "filterActiveTasks", "filterReadyTasks", "stateIcon", "selectPruneTargets", "buildPrunePlan", "buildPruneItems", "buildTombstoneEvents", "newEvent", "claimedAtForTask"}, lockFuncs, readyFuncs, replayFuncs),
 		Technique: "contract-based deductive verification: (a) totality: every instruction of the replay loop, of tombstone application and of the read-side graph functions that can panic has a discharged safety obligation for EVERY event list; (b) determinism: every sort comparator that feeds output is proved a total order on the items it sorts (epics: defect repaired), map-derived slices are sorted; (c) read purity: list, show, where and prune without --yes are proved to call no write primitive (ghost log version and commit counter unchanged, no file creation except the lock file); ",
-		Assume: []string{"readEvents (line scanner, located parse errors) is an assumed contract until the storage layer is under contract; topoSortTasks/collectEpicChildren and the tree renderer are assumed pure; `promptly` (time bounds) is not expressible; append-only is carried by the assumed appendEvents contract (O_APPEND)"},
+		Assume:    []string{"readEvents (line scanner, located parse errors) is an assumed contract until the storage layer is under contract; topoSortTasks/collectEpicChildren and the tree renderer are assumed pure; `promptly` (time bounds) is not expressible; append-only is carried by the assumed appendEvents contract (O_APPEND)"},
 	},
 	"C17": {
 		ID: "C17", Title: "Titles and bodies come back exactly as they went in", Exclude: cat(txLabels, jsonLabels),
@@ -108,11 +109,17 @@ var propSpecs = map[string]*PropSpec{
 		Technique: "contract-based deductive verification: the result section appends only for a live, unpruned, non-epic task and records exactly the cleaned path and the captured evidence; the replay loop prepends a result event's fields to the addressed live task and leaves every other task's results (length and elements) untouched for every event type; the output builder copies results in order; bounded stand-in for the lexical path confinement",
 		Assume:    []string{"captureResultEvidence (sha256 of the file content, mtime, git head) and deriveFileURL are assumed contracts; validateResultPath is a BOUNDED stand-in (all strings of length <= 6 over {./aergo} plus a curated list against a component-wise oracle on a real temp tree); re-emission order under compaction belongs to C05 (not yet claimed)"},
 	},
+	"C11": {
+		ID: "C11", Exclude: jsonLabels, Title: "plan creates the whole described graph or nothing",
+		Funcs:     cat(lockFuncs, []string{"RunPlan", "RunPlan$1", "(*PlanInput).Validate", "appendEventsAtomically", "newEvent", "newShortID", "isReachable", "hasCycle"}, replayFuncs),
+		Technique: "contract-based deductive verification: Validate's postcondition (non-blank title and task titles, distinct titles, every after names another task of the plan, non-empty task list) is the precondition of the plan section; the section's loop invariants carry, for every input position, the exact new_epic/new_task event (id, epic, todo, title, body), the reported id, pairwise distinct fresh ids outside graph and tombstones, and for every reported edge the link event with the same endpoints named by some after entry; one atomic replace appends exactly these events after the unchanged prefix; every failing path leaves log version and commit count unchanged",
+		Assume:    []string{"ParsePlanInput (strict JSON decoding: unknown keys, several values) and hasPlanCycle (title-level cycle text) are assumed contracts; rejection of cyclic after-graphs is proved through the id-level hasCycle guard inside the section", "that a later read shows the created items is the composition with replayEvents' step clauses [created-from-event] and [text] (C06/C17), stated per event, not as one end-to-end lemma", "completeness of edges (every after entry yields an edge unless it repeats one) is not stated; the statement proved is soundness: every written and reported edge is named by an after entry", "replaceEventsAtomically is an assumed contract until the storage layer is under contract (C03/C04)"},
+	},
 	"C14": {
 		ID: "C14", Exclude: cat(txLabels, jsonLabels), Title: "Every task's epic reference names a live epic",
 		Funcs:     cat([]string{"createTaskWithDir$1", "applySetUpdates$1", "buildSetEvents", "selectPruneTargets", "newEvent"}, replayFuncs),
 		Technique: "contract-based deductive verification: creation and epic reassignment require an existing, unpruned epic (postconditions of the two sections over the graph read under the lock); epics get no epic; prune policy removes an epic only together with all its (finished) children",
-		Assume:    []string{"plan (tasks inside the epic it creates) and the tree builder's placement are not yet under contract", "writer induction as in C06"},
+		Assume:    []string{"the tree builder's placement is not yet under contract; plan's tasks are created inside the epic it creates in the same commit (C11 [task-events])", "writer induction as in C06"},
 	},
 	"C15": {
 		ID: "C15", Title: "Accepted plans can always make progress", Exclude: cat(txLabels, jsonLabels),
@@ -124,6 +131,6 @@ var propSpecs = map[string]*PropSpec{
 		ID: "C16", Exclude: txLabels, Title: "--json output is a single value and tells the truth",
 		Funcs:     cat(lockFuncs, sectionFuncs, outerFuncs, commandFuncs, helperFuncs, readyFuncs, replayFuncs),
 		Technique: "contract-based deductive verification: ghost output counters (stdoutJSON, stdoutText) bumped by the trusted contracts of writeJSON and fmt.Print*; per command: success with --json writes exactly one JSON value and no text, failure at most one; create's reply equals the appended event",
-		Assume:    append([]string{"cmd/ergo wiring (cobra, exitErr, quickstart/version) is outside the package under contract", "list and plan are not yet under contract"}, lockAssume...),
+		Assume:    append([]string{"cmd/ergo wiring (cobra, exitErr, quickstart/version) is outside the package under contract", "list is under contract in C12"}, lockAssume...),
 	},
 }
